@@ -22,6 +22,10 @@ func setupC20(x *Ctx) {
 	if x.Feat(FeatDualStack) {
 		kinds = append(kinds, "unreachable-peer")
 	}
+	if x.Feat(FeatRaceWs) {
+		// writers, pumps and closes on one websocket connection (cheap runs, many rounds)
+		kinds = append(kinds, "C12", "C13", "C12")
+	}
 	k := Pick(x, "workload", kinds)
 	x.SigAdd("workload=" + k)
 	switch k {
@@ -39,6 +43,11 @@ func setupC20(x *Ctx) {
 		setupC19(x)
 	case "unreachable-peer":
 		c20UnreachablePeer(x)
+	case "C12":
+		setupC12(x)
+	case "C13":
+		x.Spec.Variant = Pick(x, "c13-variant", []string{"lc1", "lc0", "none", "w3", "r4", "pc1000", "cut", "wo2"})
+		setupC13(x)
 	}
 	x.NonTrivial()
 }
